@@ -121,10 +121,12 @@ def check(pid, tier, verif_seed, repo, nlanes, replay=None, runs=None, wall_cap=
     ncorpus = len(jobs)
     nruns = cfg["runs"]
     ndup = min(cfg.get("dups", 8), nruns)
-    for i in range(nruns):
-        jobs.append({"tag": "seed", "i": i})
+    # the duplicates (determinism pairs) go first so that a wall-cap truncation never drops them;
+    # each runs in a different lane than the seeded run with the same index
     for i in range(ndup):
-        jobs.append({"tag": "dup", "i": i, "lane": ncorpus + i + 5})
+        jobs.append({"tag": "dup", "i": i, "lane": ncorpus + ndup + i + 5})
+    for i in range(nruns):
+        jobs.append({"tag": "seed", "i": i, "lane": ncorpus + ndup + i})
 
     agg = {"counters": {}, "probes": {}, "faults": {}, "known": {}, "outcomes": {}}
     sigs = set()
@@ -140,7 +142,8 @@ def check(pid, tier, verif_seed, repo, nlanes, replay=None, runs=None, wall_cap=
     by_tag = {}
 
     def stop(res):
-        return res.get("outcome") == "VIOLATION"
+        # a duplicate (determinism pair) never decides anything: the seeded run with the same index does
+        return res.get("outcome") == "VIOLATION" and res.get("tag") != "dup"
 
     for res in runner.run_jobs(prop, tier, verif_seed, jobs, nlanes, cfg.get("timeout", 120),
                                cfg.get("wall_cap"), stop_pred=stop):
@@ -199,6 +202,10 @@ def check(pid, tier, verif_seed, repo, nlanes, replay=None, runs=None, wall_cap=
     if nres < expected and not state["truncated"] and not state["stopped"]:
         rc = 3
         lines.append("HARNESS-ERROR property=%s only %d of %d results arrived" % (pid, nres, expected))
+
+    if state["stopped"] and not violations:
+        rc = 3
+        lines.append("HARNESS-ERROR property=%s the run was stopped for a violation but none was recorded" % pid)
 
     replay_file = None
     if violations:
